@@ -37,6 +37,11 @@ def cells(tier):
                                                             requirements=on(tasks),
                                                             indicators=[{"id": "i", "kind": "Utilization",
                                                                          "resource": "w0"}]), min(H, 6)))
+    out.append(("Utilization.delayed_opt", fam.base(7, [fam.fx("t0", 3, optional=True), fam.fx("t1", 1)], workers=[
+        {"name": "w0", "cost": {"kind": "const", "value": 2}}], requirements=[
+        {"task": "t0", "resource": "w0", "delay_in": 1}, {"task": "t1", "resource": "w0"}],
+        indicators=[{"id": "i", "kind": "Utilization", "resource": "w0"},
+                    {"id": "c", "kind": "ResourceCost", "resources": ["w0"]}]), 7))
     out.append(("Utilization.cumulative", fam.base(4, [fam.fx("t0", 2), fam.fx("t1", 2)],
                                                    cumulative=[{"name": "cu", "size": 2}],
                                                    requirements=on([{"name": "t0"}, {"name": "t1"}], "cu"),
